@@ -440,6 +440,42 @@ def run(tier: str) -> int:
                 rep.add_violation("equal-signature-different-polynomial", "two polynomial expressions with the same signature denote different polynomials",
                                   {"expr1": src(group[0]), "expr2": src(other), "sig": s})
                 break
+    # ---- the evaluator and the signature must read a text the same way: texts with operator spellings outside the fragment
+    #      (whatever the real evaluator accepts of them) in pairs that differ in value
+    try:
+        from semantiva.utils.safe_eval import ExpressionEvaluator
+        pairs = [("x ^ 2 + y", "x ^ y + 2"), ("x ^ 2 * y", "x ^ y * 2"), ("z - x ^ 3 + y", "z - x ^ y + 3"), ("x | 2 + y", "x | y + 2"),
+                 ("x & 3 * y", "x & y * 3"), ("x << 1 + y", "x << y + 1"), ("x >> 1 + y", "x >> y + 1"), ("x ^ 2 + y", "y + x ^ 2"),
+                 ("2 ^ x * y", "2 ^ y * x"), ("x @ y + 2", "x @ 2 + y")]
+        stats["foreign_operator_pairs"] = 0
+        for e1, e2 in pairs:
+            fns = []
+            for e in (e1, e2):
+                try:
+                    fns.append(ExpressionEvaluator().compile(e, {"x", "y", "z"}))
+                except Exception:  # noqa: BLE001   (rejected: not a sweep expression, nothing to compare)
+                    fns.append(None)
+            if None in fns:
+                continue
+            stats["foreign_operator_pairs"] += 1
+            try:
+                s1, s2 = m.normalize_expression_sig_v1(e1)["ast"], m.normalize_expression_sig_v1(e2)["ast"]
+            except Exception:  # noqa: BLE001
+                continue
+            vals = []
+            for (x, y, z) in ((2, 3, 5), (3, 2, 7), (-3, -3, -3), (1, 4, 0)):
+                try:
+                    vals.append((fns[0](x=x, y=y, z=z), fns[1](x=x, y=y, z=z)))
+                except Exception as exc:  # noqa: BLE001
+                    vals.append((repr(exc), repr(exc)))
+            if s1 == s2 and any(a != b for a, b in vals):
+                rep.add_violation("equal-signature-different-value:foreign-operator",
+                                  "two expressions the evaluator accepts have the same signature and different values",
+                                  {"expr1": e1, "expr2": e2, "values": [list(v) for v in vals], "sig": s1})
+            if s1 != s2 and e1.replace(" ", "") != e2.replace(" ", "") and all(a == b for a, b in vals) and sorted(e1.split()) == sorted(e2.split()) and "+" in e1:
+                pass      # a commuted pair with different signatures would be a finding only if the evaluator's reading made it a commutation
+    except ImportError:
+        pass
     # and all AC-variants of a polynomial tree do share a class: shuffles of each
     samples = [{"expr": src(e), "sig": sigf(e)} for e in exprs[:4]]
     rep.coverage.update({
